@@ -152,6 +152,7 @@ func init() {
 	} {
 		if e != nil {
 			ExtCatalog = append(ExtCatalog, e)
+			register(e) // members of the shared catalogue too
 		}
 	}
 	if e := entryOf[H010]("H010"); e != nil {
